@@ -114,12 +114,13 @@ def load_known():
 # running kani
 # --------------------------------------------------------------------------
 
-def kani_env():
+def kani_env(crate="agdb"):
     env = dict(os.environ)
     env["CARGO_NET_OFFLINE"] = "true"
     env["AGDB_VERIF_HARNESS"] = HARNESS_AGDB
     flags = env.get("RUSTFLAGS", "")
-    if "agdb_verif" not in flags:
+    if crate == "agdb" and "agdb_verif" not in flags:
+        # the Raft scratch crate uses agdb only for the DbId type: hooks stay off there
         env["RUSTFLAGS"] = (flags + " --cfg agdb_verif").strip()
     env.pop("CARGO_TARGET_DIR", None)
     return env
@@ -148,8 +149,11 @@ def make_raft_crate(scratch):
     shutil.copy(os.path.join(HARNESS_RAFT, "main.rs"), os.path.join(d, "src", "main.rs"))
     open(os.path.join(d, "Cargo.toml"), "w").write(
         '[package]\nname = "raftcheck"\nversion = "0.0.0"\nedition = "2024"\n\n[workspace]\n\n'
+        '[dependencies]\nserde = { version = "1", features = ["derive"] }\n'
+        f'agdb = {{ path = "{REPO}/agdb" }}\n\n'
         "[lints.rust]\nunexpected_cfgs = { level = \"allow\", check-cfg = ['cfg(kani)'] }\n"
     )
+    shutil.copy(os.path.join(REPO, "Cargo.lock"), os.path.join(d, "Cargo.lock"))
     return d
 
 
@@ -251,7 +255,7 @@ def run_harness(h, scratch, tier):
     name = h["name"]
     tdir = os.path.join(scratch, "t_" + name)
     log = os.path.join(scratch, name + ".log")
-    env = kani_env()
+    env = kani_env(h["crate"])
     if h["crate"] == "raft":
         try:
             cwd = make_raft_crate(scratch)
@@ -312,7 +316,7 @@ def replay_counterexample(h, scratch, prop):
     unit test, and run that test natively (rustc, not CBMC) against the same
     real functions. Returns (reproduced: bool|None, replay_path, note)."""
     name = h["name"]
-    env = kani_env()
+    env = kani_env(h["crate"])
     cwd = make_raft_crate(scratch) if h["crate"] == "raft" else REPO
     tdir = os.path.join(scratch, "t_" + name)
     log = os.path.join(scratch, name + ".playback.log")
@@ -345,7 +349,7 @@ def run_replay_file(rpath, scratch):
         return None, "replay file lacks header"
     hfile, crate, tname = m.group(1).strip(), mc.group(1).strip(), mt.group(1)
     body = txt[txt.index("/// Test generated"):] if "/// Test generated" in txt else txt
-    env = kani_env()
+    env = kani_env(crate)
     rdir = os.path.join(scratch, "replay_" + tname[-12:])
     os.makedirs(rdir, exist_ok=True)
     if crate == "agdb":
